@@ -174,6 +174,10 @@ def gen_cases(rng, tier, drift):
     for _ in range(n_e2e):
         cases.append(dict(kind="e2e", seed=rng.randint(0, 10**9), W=rng.choice([1, 2]), n=rng.randint(2, 6), alias=rng.random() < 0.7,
                           P=rng.choice([1, 2, 3])))
+    for _ in range(n_e2e // 2):
+        # persistent workers whose dataset state lives on in the worker; epochs abandoned while prefetched batches are in flight
+        cases.append(dict(kind="e2e_p", seed=rng.randint(0, 10**9), W=rng.choice([1, 2, 2]), alias=rng.random() < 0.5, P=rng.choice([1, 2, 3]),
+                          takes=[rng.randint(0, 3), rng.randint(1, 4), None], n=rng.randint(6, 9)))
     return cases
 
 
@@ -207,6 +211,8 @@ def run_impl(c):
     from torchdata.stateful_dataloader.incremental_state import _IncrementalWorkerState
     if c["kind"] == "e2e":
         return run_e2e(c)
+    if c["kind"] == "e2e_p":
+        return run_e2e_persistent(c)
     init, steps = history(c)
     live = build(init)
     mode = c["mode"]
@@ -335,6 +341,65 @@ def run_e2e(c):
 
 
 # ---------------- model side
+def run_e2e_persistent(c):
+    """persistent workers + a map-style dataset whose per-replica state follows a scripted history (one step per fetch, so it
+    keeps advancing across epochs, prefetched-and-discarded batches included). After every yielded batch (which names its worker
+    and that replica's fetch count) the checkpoint entry of that worker must be the state the worker reported with that batch."""
+    import torch.utils.data as tud
+    from torchdata.stateful_dataloader import StatefulDataLoader
+    W, alias, n = c["W"], c["alias"], c["n"]
+    NST = 40
+    hist = {w: history(dict(c, seed=c["seed"] + w, steps=NST)) for w in range(W)}
+
+    class PDS(tud.Dataset):
+        def __init__(self):
+            self.live, self.count = None, 0
+
+        def __len__(self):
+            return n
+
+        def __getitem__(self, idx):
+            w = tud.get_worker_info().id
+            init, steps = hist[w]
+            if self.live is None:
+                self.live = build(init)
+            for o in steps[min(self.count, NST - 1)]:
+                self.live = apply_op(self.live, o)
+            self.count += 1
+            return w * 1000 + self.count
+
+        def state_dict(self):
+            return {"k0": self.live if alias else copy.deepcopy(self.live), "k7": self.count}
+
+        def load_state_dict(self, sd):
+            self.live, self.count = copy.deepcopy(sd["k0"]), sd["k7"]
+
+    exp = {}
+    for w in range(W):
+        init, steps = hist[w]
+        live = build(init)
+        for j in range(NST):
+            for o in steps[j]:
+                live = apply_op(live, o)
+            exp[(w, j + 1)] = enc({"k0": copy.deepcopy(live), "k7": j + 1})
+    dl = StatefulDataLoader(PDS(), batch_size=1, num_workers=W, prefetch_factor=c["P"], snapshot_every_n_steps=1, persistent_workers=True)
+    fails = []
+    for e, take in enumerate(c["takes"]):
+        k = 0
+        for b in dl:
+            if take is not None and k >= take:
+                break
+            k += 1
+            v = int(b[0])
+            w, j = v // 1000, v % 1000
+            sd = dl.state_dict()
+            got = enc(sd["_snapshot"]["_worker_snapshots"][f"worker_{w}"]["dataset_state"])
+            if j < NST and got != exp[(w, j)]:
+                fails.append(f"epoch {e}, after batch {k} (worker {w}, its fetch #{j}): checkpoint holds {got}, the worker reported {exp[(w, j)]}")
+    del dl
+    return dict(oracle="; ".join(fails[:2]) or None, nontrivial=True, key=["e2e_p", c["seed"], W, alias, c["P"], c["takes"]])
+
+
 def model_term(c, r):
     def wstate(rep, order):
         ds, fs = rep
